@@ -41,6 +41,7 @@ func init() {
 		return f
 	})
 	one := func(c *fw.Ctx, label, scheme, host string) {
+		c.Cur("host", scheme, host)
 		c.Eval()
 		f, cfg, mu := hostEval(scheme, host)
 		c.R.Transitions += cfg.Steps
